@@ -6,7 +6,7 @@ class C16(pure.Spec):
     prop = "C16"
     module = "Properties.C16"
     theorems = ["C16_no_early_timeout", "C16_dead_peer_detected_in_window", "C16_dead_peer_is_detected",
-                "C16_prompt_peer_never_times_out", "C16_disabled_is_silent", "C16_no_timeout_when_indefinite", "C16_clamp", "C16_pong_with_tick_counts"]
+                "C16_prompt_peer_never_times_out", "C16_disabled_is_silent", "C16_no_timeout_when_indefinite", "C16_clamp", "C16_pong_with_tick_counts", "C16_peer_ping_is_no_answer"]
     crate = "ka"
     binary = "vh-ka"
     design_ref = "DESIGN.md §5 C16"
